@@ -21,6 +21,10 @@ pub enum EvOp {
     Create,
     Write { pos: u64, data: Vec<u8> },
     SetLen { len: u64 },
+    /// the file at `path` gets the name `to` (replacing whatever was there)
+    Rename { to: String },
+    /// the name `path` is gone (an open handle keeps the data under a detached name)
+    Remove,
 }
 
 #[derive(Clone, Debug)]
@@ -68,6 +72,7 @@ struct Inner {
     files: Image,
     handles: BTreeMap<u64, Handle>,
     next_handle: u64,
+    detached: u64,
     journal: Option<Vec<Event>>,
     events: u64,
     calls: u64,
@@ -106,6 +111,7 @@ impl SimFs {
                 files,
                 handles: BTreeMap::new(),
                 next_handle: 1,
+                detached: 0,
                 journal: None,
                 events: 0,
                 calls: 0,
@@ -255,6 +261,35 @@ impl Inner {
         false
     }
 
+    fn path_fault(&mut self, kind: FaultKind) -> io::Error {
+        match kind {
+            FaultKind::NoSpace => {
+                self.counters.faults_nospace += 1;
+                enospc()
+            }
+            _ => {
+                self.counters.faults_io += 1;
+                eio()
+            }
+        }
+    }
+
+    /// If handles are open on the file named `path`, it continues under a detached name.
+    fn detach(&mut self, path: &str) {
+        if !self.files.contains_key(path) || !self.handles.values().any(|h| h.path == path) {
+            return;
+        }
+        self.detached += 1;
+        let name = format!("{PREFIX}.detached#{}", self.detached);
+        let f = self.files.get(path).cloned().unwrap_or_default();
+        self.files.insert(name.clone(), f);
+        for h in self.handles.values_mut() {
+            if h.path == path {
+                h.path = name.clone();
+            }
+        }
+    }
+
     fn journal(&mut self, path: &str, op: EvOp) {
         self.events += 1;
         if let Some(j) = self.journal.as_mut() {
@@ -279,6 +314,14 @@ pub fn apply_event(files: &mut Image, ev: &Event) {
         EvOp::SetLen { len } => {
             let f = files.entry(ev.path.clone()).or_default();
             f.resize(*len as usize, 0);
+        }
+        EvOp::Rename { to } => {
+            if let Some(f) = files.remove(&ev.path) {
+                files.insert(to.clone(), f);
+            }
+        }
+        EvOp::Remove => {
+            files.remove(&ev.path);
         }
     }
 }
@@ -486,5 +529,72 @@ impl SimFsTrait for SimFs {
     fn close(&self, handle: u64) {
         let mut i = self.lock();
         i.handles.remove(&handle);
+    }
+
+    // Path operations. Handles follow the file, not the name (POSIX): a renamed file keeps its open handles,
+    // a removed or replaced file lives on under a detached name for as long as a handle is open on it.
+    fn rename(&self, from: &str, to: &str) -> io::Result<()> {
+        self.pre();
+        let mut i = self.lock();
+        i.call(5);
+        i.hash.str(from).str(to);
+        if !i.files.contains_key(from) {
+            return Err(io::Error::from(io::ErrorKind::NotFound));
+        }
+        if let Some(kind) = i.event_fault() {
+            return Err(i.path_fault(kind));
+        }
+        i.detach(to);
+        let f = i.files.remove(from).unwrap();
+        i.files.insert(to.to_string(), f);
+        for h in i.handles.values_mut() {
+            if h.path == from {
+                h.path = to.to_string();
+            }
+        }
+        i.journal(from, EvOp::Rename { to: to.to_string() });
+        Ok(())
+    }
+
+    fn remove_file(&self, path: &str) -> io::Result<()> {
+        self.pre();
+        let mut i = self.lock();
+        i.call(6);
+        i.hash.str(path);
+        if !i.files.contains_key(path) {
+            return Err(io::Error::from(io::ErrorKind::NotFound));
+        }
+        if let Some(kind) = i.event_fault() {
+            return Err(i.path_fault(kind));
+        }
+        i.detach(path);
+        i.files.remove(path);
+        i.journal(path, EvOp::Remove);
+        Ok(())
+    }
+
+    fn copy(&self, from: &str, to: &str) -> io::Result<u64> {
+        self.pre();
+        let mut i = self.lock();
+        i.call(7);
+        i.hash.str(from).str(to);
+        let Some(data) = i.files.get(from).cloned() else { return Err(io::Error::from(io::ErrorKind::NotFound)) };
+        // not atomic: create/truncate the target, then write the content (two events a crash can separate)
+        if let Some(kind) = i.event_fault() {
+            return Err(i.path_fault(kind));
+        }
+        if i.files.contains_key(to) {
+            i.files.insert(to.to_string(), vec![]);
+            i.journal(to, EvOp::SetLen { len: 0 });
+        } else {
+            i.files.insert(to.to_string(), vec![]);
+            i.journal(to, EvOp::Create);
+        }
+        if let Some(kind) = i.event_fault() {
+            return Err(i.path_fault(kind));
+        }
+        i.files.insert(to.to_string(), data.clone());
+        i.journal(to, EvOp::Write { pos: 0, data: data.clone() });
+        Ok(data.len() as u64)
     }
 }
